@@ -262,7 +262,9 @@ where
     for (&x, &w) in arr.iter().zip(weights.iter()) {
         weight_sum += w;
         let x_minus_mean = x - mean;
-        mean += (w / weight_sum) * x_minus_mean;
+        if weight_sum != zero {
+            mean += (w / weight_sum) * x_minus_mean;
+        }
         s += w * x_minus_mean * (x - mean);
     }
     Ok(s / (weight_sum - ddof))
